@@ -7,6 +7,8 @@
 (*  mode "pump"  : every token repeated to about PumpLen characters in every context           *)
 (*  mode "pump2" : every ordered pair of distinct tokens among the first Pump2Toks, repeated to *)
 (*                 about Pump2Len characters, in every context                                 *)
+(*  mode "gram"  : every text of the family's numeric / instant grammar (Hostile!GramTexts);   *)
+(*                 the state variable seq holds the text itself                                *)
 (*  mode "table" : the families' token tables and function / slot lists (for the seeded driver)*)
 (* Invariants: every generated text is in the domain of the property and within the bounds.    *)
 EXTENDS Hostile, Json
@@ -25,6 +27,7 @@ Init ==
   \/ /\ "pump" \in Modes /\ mode = "pump" /\ fam \in FamSet /\ seq = <<>> /\ k \in 1..Len(Ctxs(fam)) /\ c \in 1..Len(Toks(fam))
   \/ /\ "pump2" \in Modes /\ mode = "pump2" /\ fam \in FamSet /\ k \in 1..Len(Ctxs(fam)) /\ c = 0
      /\ seq \in {<<a, b>> : a \in 1..Min2(Pump2Toks, Len(Toks(fam))), b \in 1..Min2(Pump2Toks, Len(Toks(fam)))} /\ seq[1] # seq[2]
+  \/ /\ "gram" \in Modes /\ mode = "gram" /\ fam \in FamSet /\ seq \in GramTexts(fam) /\ k = 0 /\ c = 0
   \/ /\ "table" \in Modes /\ mode = "table" /\ fam \in FamSet /\ seq = <<>> /\ k = 0 /\ c = 0
 
 Next == /\ mode = "seq" /\ Len(seq) < MaxLen
@@ -34,6 +37,7 @@ Next == /\ mode = "seq" /\ Len(seq) < MaxLen
 
 Text == CASE mode = "seq" -> TextOf(fam, seq)
           [] mode = "sweep" -> SweepText(fam, k, c)
+          [] mode = "gram" -> seq
           [] mode = "pump" -> PumpText(fam, k, c, PumpLen)
           [] mode = "pump2" -> LET unit == TextOf(fam, seq) IN Ctxs(fam)[k][1] \o Rep(unit, Pump2Len \div Len(unit)) \o Ctxs(fam)[k][2]
           [] OTHER -> <<>>
@@ -44,6 +48,7 @@ ASSUME ContractTable == TableWellFormed
 
 TextInDomain == InDomain(Text)
 TextBounded == CASE mode = "seq" -> Len(Text) <= MaxLen * MaxTokLen
+                 [] mode = "gram" -> Len(Text) >= 7 /\ Len(Text) <= 16000
                  [] mode = "sweep" -> Len(Text) <= 64
                  [] mode = "pump" -> Len(Text) <= PumpLen + 64 /\ Len(Text) >= PumpLen \div 2
                  [] mode = "pump2" -> Len(Text) <= Pump2Len + 64 /\ Len(Text) >= Pump2Len \div 2
